@@ -1720,3 +1720,100 @@ def kernels(cx):
         cx.check("find_columns == first (axis, index) outside of which every entry is <= atol", p,
                  lambda x=x, atol=atol: None if find_columns(x, atol=atol) == _ref_column(x, atol) else
                  f"got {find_columns(x, atol=atol)}, reference {_ref_column(x, atol)}")
+
+
+# ----------------------------------------------------------------------------------------------
+# pair-level helpers with a user-supplied gauge dictionary (weights NOT normalised)
+# ----------------------------------------------------------------------------------------------
+
+
+@driver("C04", "pair-helpers-with-gauge-dict", chunks=2, timeout=120,
+        bound="two tensors sharing 0..3 bonds of sizes 1..3 (at least one size-1 bond in half of the cases) plus 1..2 "
+              "private labels each, float64 / complex128, a gauge dictionary with arbitrary positive weights on the shared "
+              "bonds (so also a weight != 1 on a size-1 bond, which normalised simple-update gauges never have): "
+              "tensor_make_single_bond / tensor_multifuse / tensor_fuse_squeeze(squeeze True/False) keep "
+              "sum_bonds t1 * prod(gauges) * t2 unchanged and leave exactly one (or no) shared label whose gauge entry has "
+              "the size of that label")
+def pair_helpers(cx):
+    import quimb.tensor as qtn
+
+    rng = cx.rng
+    ncase = 150 if cx.quick else 1500
+    for i in range(ncase):
+        nsh = int(rng.integers(0, 4))
+        sizes = [int(rng.integers(1, 4)) for _ in range(nsh)]
+        if nsh and i % 2 == 0:
+            sizes[int(rng.integers(0, nsh))] = 1
+        if nsh and i % 7 == 0:
+            sizes = [1] * nsh
+        la = [int(rng.integers(1, 4)) for _ in range(int(rng.integers(1, 3)))]
+        lb = [int(rng.integers(1, 4)) for _ in range(int(rng.integers(1, 3)))]
+        cplx = bool(rng.integers(0, 2))
+        helper = ["tensor_fuse_squeeze", "tensor_fuse_squeeze", "tensor_fuse_squeeze(squeeze=False)", "tensor_make_single_bond",
+                  "tensor_multifuse"][int(rng.integers(0, 5))]
+        pa = rng.permutation(len(la) + nsh)
+        pb = rng.permutation(len(lb) + nsh)
+        seed = int(rng.integers(1 << 30))
+        if helper == "tensor_multifuse" and nsh < 2:
+            helper = "tensor_fuse_squeeze"
+        if helper.startswith("tensor_fuse_squeeze") and nsh == 0:
+            # precondition from the call sites (contract_compressed, _compress_between_tids, ...): the two tensors are
+            # neighbours; only tensor_make_single_bond is written for tensors that share nothing
+            helper = "tensor_make_single_bond"
+        if not cx.mine():
+            continue
+
+        def t(sizes=sizes, la=la, lb=lb, cplx=cplx, helper=helper, pa=pa, pb=pb, seed=seed):
+            r = np.random.default_rng(seed)
+            sh = [f"b{k}" for k in range(len(sizes))]
+            ia = [f"x{k}" for k in range(len(la))] + sh
+            ib = [f"y{k}" for k in range(len(lb))] + sh
+            A = r.normal(size=la + sizes) + (1j * r.normal(size=la + sizes) if cplx else 0)
+            B = r.normal(size=lb + sizes) + (1j * r.normal(size=lb + sizes) if cplx else 0)
+            g = {b: r.uniform(0.2, 3.0, size=d) for b, d in zip(sh, sizes)}
+            # stored axis order is arbitrary
+            ta = qtn.Tensor(A, inds=ia).transpose(*[ia[k] for k in pa])
+            tb = qtn.Tensor(B, inds=ib).transpose(*[ib[k] for k in pb])
+
+            def value(ta, tb, g):
+                shared = [ix for ix in ta.inds if ix in tb.inds]
+                out = [ix for ix in ta.inds if ix not in shared] + [ix for ix in tb.inds if ix not in shared]
+                num = {ix: k for k, ix in enumerate(dict.fromkeys(list(ta.inds) + list(tb.inds)))}
+                ops = [np.asarray(ta.data), [num[ix] for ix in ta.inds], np.asarray(tb.data), [num[ix] for ix in tb.inds]]
+                for ix in shared:
+                    if ix in g:
+                        ops += [np.asarray(g[ix]), [num[ix]]]
+                return np.einsum(*ops, [num[ix] for ix in sorted(out)]), shared
+
+            ref, _ = value(ta, tb, g)
+            gg = {k: np.array(v) for k, v in g.items()}
+            if helper == "tensor_fuse_squeeze":
+                qtn.tensor_core.tensor_fuse_squeeze(ta, tb, gauges=gg)
+            elif helper == "tensor_fuse_squeeze(squeeze=False)":
+                qtn.tensor_core.tensor_fuse_squeeze(ta, tb, squeeze=False, gauges=gg)
+            elif helper == "tensor_make_single_bond":
+                qtn.tensor_core.tensor_make_single_bond(ta, tb, gauges=gg)
+            else:
+                qtn.tensor_core.tensor_multifuse((ta, tb), tuple(sh), gauges=gg)
+            got, shared = value(ta, tb, gg)
+            if got.shape != ref.shape:
+                return f"shape {got.shape} != {ref.shape}"
+            scale = max(1.0, float(np.abs(ref).max()))
+            if np.abs(got - ref).max() > 1e-10 * scale:
+                k = np.unravel_index(np.abs(got - ref).argmax(), ref.shape)
+                return (f"sum over the shared bonds of t1 * gauges * t2 changed: max abs diff {np.abs(got - ref).max():.3g} "
+                        f"(got/expected = {complex(got[k] / ref[k]):.4g})")
+            if len(sizes) and len(shared) > 1:
+                return f"{len(shared)} shared labels left {shared}"
+            if helper == "tensor_fuse_squeeze" and len(sizes) and int(np.prod(sizes)) == 1 and shared:
+                return f"size-1 bond {shared} was not squeezed away"
+            for ix in list(gg):
+                if ix not in shared:
+                    return f"gauge entry {ix!r} left over for a label that is no longer shared"
+                if np.asarray(gg[ix]).shape != (ta.ind_size(ix),):
+                    return f"gauge entry {ix!r} has shape {np.asarray(gg[ix]).shape}, the label has size {ta.ind_size(ix)}"
+            return None
+
+        cx.check("pair helper with a gauge dictionary: sum_bonds t1 * gauges * t2 unchanged, one bond left, gauge entries consistent",
+                 dict(i=i, helper=helper, shared_sizes=sizes, cplx=cplx, unit_bond=bool(sizes) and 1 in sizes), t,
+                 nontrivial=bool(sizes))
